@@ -67,6 +67,7 @@ pub fn reset_ticks() {
 /// Raise the interrupt flag when the clock reaches `n` (absolute; 0 disarms).
 pub fn interrupt_at(n: u64) {
     INT_AT.set(n);
+    INT_FIRED.set(0);
 }
 
 /// Tick at which the armed interrupt fired (0 = it did not fire).
